@@ -1,6 +1,7 @@
 package props
 
 import (
+	"strings"
 	"fmt"
 	"strconv"
 	"sync"
@@ -53,6 +54,26 @@ func c16IsTrue(s string) bool { return s == "true" || s == "1" }
 
 // c16Spec: reference model written from the property text. Returns the set of acceptable
 // positions (-1 = nothing) and which rule decided.
+// c16IndexValue reads an index the way xs:unsignedShort is written: an optional plus sign, decimal digits, leading zeros allowed
+// (own reader: the reference does not depend on a library's idea of number bases). Anything else counts as 0, like an absent index.
+func c16IndexValue(s string) int {
+	t := strings.TrimPrefix(s, "+")
+	if t == "" {
+		return 0
+	}
+	v := 0
+	for _, c := range t {
+		if c < '0' || c > '9' {
+			return 0
+		}
+		v = v*10 + int(c-'0')
+		if v > 1<<30 {
+			return 1 << 30
+		}
+	}
+	return v
+}
+
 func c16Spec(list []md.IndexedEndpointType, requested string) (ok []int, rule string) {
 	if len(list) == 0 {
 		return []int{-1}, "empty"
@@ -69,13 +90,13 @@ func c16Spec(list []md.IndexedEndpointType, requested string) (ok []int, rule st
 	}
 	min := -1
 	for _, e := range list {
-		i, _ := strconv.Atoi(e.Index)
+		i := c16IndexValue(e.Index)
 		if min < 0 || i < min {
 			min = i
 		}
 	}
 	for p, e := range list {
-		i, _ := strconv.Atoi(e.Index)
+		i := c16IndexValue(e.Index)
 		if i == min {
 			ok = append(ok, p)
 		}
@@ -327,7 +348,39 @@ func runC16(ctx Ctx) int {
 		run.Set("long_lists", map[string]any{"lengths": lens, "entry_shapes": len(red), "evaluations": l.n})
 		merge(l)
 	}
-	run.Bound = fmt.Sprintf("all lists of length <= %d x %d requested bindings; structured lists of 49 lengths up to 257", completedLen, len(c16Requested))
+	// index SPELLINGS (xs:unsignedShort: optional plus sign, leading zeros): every list of length 2 and 3 over 18 spellings, no entry
+	// flagged as default, requested binding absent / unlisted / listed
+	{
+		spell := []string{"0", "00", "1", "01", "+1", "7", "007", "8", "08", "9", "09", "010", "10", "0012", "12", "11", "65535", "065535"}
+		l := &local{rules: map[string]int64{}}
+		var rec func(list []md.IndexedEndpointType, depth int)
+		rec = func(list []md.IndexedEndpointType, depth int) {
+			if len(list) >= 2 {
+				for _, rq := range []string{"", "urn:unlisted:binding", provider.RedirectBinding} {
+					rule, clause, labels, got := c16Judge(list, rq)
+					l.n++
+					l.rules["spelling:"+rule]++
+					if clause != "" {
+						var idx []string
+						for _, e := range list {
+							idx = append(idx, e.Index)
+						}
+						run.Violate(clause, "GetAcsUrlAndBindingForResponse", append(labels, "index-spellings"), map[string]any{"indexes": idx, "requested": rq, "got": got}, nil)
+					}
+				}
+			}
+			if depth == 3 {
+				return
+			}
+			for _, sp := range spell {
+				rec(append(append([]md.IndexedEndpointType{}, list...), md.IndexedEndpointType{Index: sp, Binding: provider.PostBinding, Location: "https://sp.example/acs/" + strconv.Itoa(len(list))}), depth+1)
+			}
+		}
+		rec(nil, 0)
+		run.Set("index_spelling_lists", l.n)
+		merge(l)
+	}
+	run.Bound = fmt.Sprintf("all lists of length <= %d x %d requested bindings; structured lists of 49 lengths up to 257; index spellings", completedLen, len(c16Requested))
 	run.Sample(map[string]any{"list": []md.IndexedEndpointType{c16Entry(0, 0), c16Entry(31, 1)}, "requested": c16Requested[2]})
 	c16EndToEnd(run)
 	{
